@@ -287,6 +287,10 @@ func tryGetRedumpKey(fsys afero.Fs, requestedPath string) ([]byte, error) {
 		defer keyFile.Close()
 		return ReadKeyFile(keyFile)
 	}
+	if !errors.Is(err, afero.ErrFileNotFound) {
+		// key file exists but can't be opened, image must not be served as is
+		return nil, err
+	}
 
 	// try .dkey in REDKEY directory (instead of PS3ISO)
 	pathElems[ps3IsoIdx] = redkeyDir
